@@ -50,8 +50,6 @@ package pod_info
 //@   ieee
 //@   requires pi != nil && pi.Pod != nil && pi.ResReq != nil
 //@   requires !pi.IsLegacyMIGtask
-//@   assume !resources.pfOk("") && !resources.piOk("") && !resources.puOk("")
-//@   note strconv: parsing the empty string is a syntax error (documented); an absent annotation is read as ""
 //@   modifies pi.GPUGroups, pi.ResourceReceivedType, pi.ResReq.GpuResourceRequirement, pi.ResourceRequestType, pi.ResReqVector, pi.IsLegacyMIGtask
 // functional description of the scheduler's interpretation (helper level, from the code)
 //@   ensures [sched-fraction] !pi.IsLegacyMIGtask && sFracOk(pi.Pod) ==> pi.ResReq.portion == ite(resources.pfVal(resources.fracStr(pi.Pod)) >= 1.0, 1.0, resources.pfVal(resources.fracStr(pi.Pod))) && pi.ResReq.gpuMemory == ite(sCountUsed(pi.Pod) && sMemOk(pi.Pod), resources.piVal(resources.memStr(pi.Pod)), 0)
